@@ -605,6 +605,7 @@ structure HdrOk (sH : State) (tr : Server.Transport) (payload : Nat) : Prop wher
   owner : sH.mostRecentOwner = none
   inr : sH.mostRecentNameInRdata = none
   cursor : sH.cursor = 12
+  rrStart : sH.rrStart = 12
   edns : sH.edns = none
   tsig : sH.tsig = none
   lim : sH.limit = lim0 tr
@@ -647,7 +648,7 @@ theorem qSt_some (sH : State) (tr : Server.Transport) (payload : Nat) (h : HdrOk
                     (12 + q.qname.length + 2) (u16be q.qclass) ∧
     (qSt sH (some q)).cursor = 12 + q.qname.length + 4 ∧ (qSt sH (some q)).qdcount = 1 ∧
     (qSt sH (some q)).ancount = sH.ancount ∧ (qSt sH (some q)).nscount = sH.nscount ∧
-    (qSt sH (some q)).arcount = 0 := by
+    (qSt sH (some q)).arcount = 0 ∧ (qSt sH (some q)).rrStart = 12 + q.qname.length + 4 := by
   have h512 := h.lim512
   have hav := h.avail
   have hsz := h.size
@@ -660,11 +661,11 @@ theorem qSt_some (sH : State) (tr : Server.Transport) (payload : Nat) (h : HdrOk
     show (addQuestion (toQ q) q.qtype q.qclass sH).2 = s'
     rw [htoq, hadd]
   rw [hqs]
-  rw [hw, hcur] at ho hc
+  rw [hw, hcur] at ho hc hrr
   have hsz' : s'.octets.size = sH.octets.size := by rw [ho]; simp only [writeAt_size]
   refine ⟨hadd, ⟨by rw [hed]; exact h.edns, by omega, by omega, by rw [har, h.ar]; omega,
     by rw [hlim]; exact h.lim, ?_, by rw [havl, hlim]; exact hav, by omega, by rw [hts]; exact h.tsig⟩,
-    ho, hc, hqd, han, hns, by rw [har]; exact h.ar⟩
+    ho, hc, hqd, han, hns, by rw [har]; exact h.ar, hrr⟩
   intro htr
   exact ⟨by omega, by rw [hsz']; exact h.buf htr⟩
 
